@@ -622,6 +622,49 @@ func (a *Adv) DoubleSpendProbes() int {
 					}
 				}
 			}
+			// the spent element presented by a v2 input as a parent created earlier in this block (unassigned leaf index, no
+			// proof): nothing in the block created it. Appended to the honest block, and in a block of its own behind one
+			// honest transaction that creates siacoin elements without spending any (a siafund transfer with its claim, a
+			// contract resolution, a bare storage proof), so that the block's first recorded siacoin element is a created one
+			if a.v2Allowed() {
+				if txn, ok := a.payV2(e, lock); ok {
+					txn.SiacoinInputs[0].Parent.StateElement = types.StateElement{LeafIndex: types.UnassignedLeafIndex}
+					SignV2(a.CS, &txn, SignOpts{})
+					if blk, ok := a.withV2(CloneBlock(a.Honest), txn); ok {
+						if a.emit(blk, "respend-spent-element/v2-as-ephemeral-parent", "reject", nil, nil) {
+							n++
+						}
+					}
+					for _, h := range a.Honest.V2Transactions() {
+						if len(h.SiacoinInputs) == 0 && (len(h.SiafundInputs) > 0 || len(h.FileContractResolutions) > 0) {
+							blk := types.Block{Timestamp: a.Honest.Timestamp, MinerPayouts: []types.SiacoinOutput{{Address: types.Address{0xAA}}},
+								V2: &types.V2BlockData{Transactions: []types.V2Transaction{CloneV2(h), txn}}}
+							if a.emit(blk, "respend-spent-element/v2-as-ephemeral-parent-after-a-creating-transaction", "reject", nil, nil) {
+								n++
+							}
+							break
+						}
+					}
+					if a.v1Allowed() {
+						for ti, h := range a.Honest.Transactions {
+							if len(h.SiacoinInputs) == 0 && (len(h.SiafundInputs) > 0 || len(h.StorageProofs) > 0) {
+								blk := types.Block{Timestamp: a.Honest.Timestamp, MinerPayouts: []types.SiacoinOutput{{Address: types.Address{0xAA}}},
+									Transactions: []types.Transaction{CloneV1(h)}, V2: &types.V2BlockData{Transactions: []types.V2Transaction{txn}}}
+								honestSupp := a.G.C.Store.Supplement(a.Honest, a.Child, a.G.C.Net.HardforkV2.RequireHeight)
+								if ti < len(honestSupp.Transactions) {
+									ts := honestSupp.Transactions[ti]
+									if a.emit(blk, "respend-spent-element/v2-as-ephemeral-parent-after-a-creating-transaction", "reject", nil, func(bs *consensus.V1BlockSupplement) {
+										bs.Transactions = []consensus.V1TransactionSupplement{ts}
+									}) {
+										n++
+									}
+								}
+								break
+							}
+						}
+					}
+				}
+			}
 			if txn, ok := a.payV1(e.ID, e.SiacoinOutput.Value, lock); ok {
 				if blk, ok := a.withV1(CloneBlock(a.Honest), txn); ok {
 					idx := len(blk.Transactions) - 1
@@ -1012,6 +1055,33 @@ func (a *Adv) InflationProbes() int {
 				done["sc"] = true
 			}
 		}
+	}
+	// a revision that keeps the contract's total but moves so much from the host's valid output to the renter's that the
+	// missed host value exceeds what is left (or empties it): expiry would then pay out more than the contract holds
+	for ti := range a.Honest.V2Transactions() {
+		orig := a.Honest.V2.Transactions[ti]
+		if len(orig.FileContractRevisions) == 0 {
+			continue
+		}
+		rev := orig.FileContractRevisions[0].Revision
+		if rev.MissedHostValue.IsZero() || rev.HostOutput.Value.Cmp(rev.MissedHostValue) < 0 {
+			continue
+		}
+		for _, empty := range []bool{false, true} {
+			blk := CloneBlock(a.Honest)
+			x := &blk.V2.Transactions[ti]
+			fc := &x.FileContractRevisions[0].Revision
+			delta := fc.HostOutput.Value.Sub(fc.MissedHostValue).Add(types.NewCurrency64(1))
+			name := "contract/v2-revision-host-output-below-missed-host-value"
+			if empty {
+				delta, name = fc.HostOutput.Value, "contract/v2-revision-host-output-emptied-missed-host-value-kept"
+			}
+			fc.HostOutput.Value = fc.HostOutput.Value.Sub(delta)
+			fc.RenterOutput.Value = fc.RenterOutput.Value.Add(delta)
+			SignV2(a.CS, x, SignOpts{})
+			emit(blk, name)
+		}
+		break
 	}
 	for ti := range a.Honest.V2Transactions() {
 		orig := a.Honest.V2.Transactions[ti]
